@@ -16,6 +16,7 @@
 #include <opm/input/eclipse/Parser/ParserItem.hpp>
 #include <opm/input/eclipse/Parser/ParserKeyword.hpp>
 #include <opm/input/eclipse/Parser/ParserRecord.hpp>
+#include <opm/input/eclipse/Parser/ParserKeywords/Builtin.hpp>
 #include <opm/input/eclipse/Utility/Typetools.hpp>
 
 #include <opm/json/JsonObject.hpp>
@@ -285,23 +286,13 @@ PROBE_CMD(units_kwjson) {
     const Opm::ParserKeyword jkw(jo);
     out.key("json");
     dump_keyword(out, jkw);
-    Opm::Parser parser;
-    std::set<std::string> cands(jkw.deck_names().begin(), jkw.deck_names().end());
-    cands.insert(jkw.getName());
+    // generated registry of the compiled-in keywords, addressed by internal name
+    const Opm::ParserKeywords::Builtin builtin;
     const Opm::ParserKeyword* found = nullptr;
-    for (const auto& c : cands) {
-        if (parser.hasKeyword(c)) {
-            const auto& k = parser.getKeyword(c);
-            if (k.getName() == jkw.getName()) { found = &k; break; }
-        }
-    }
-    if (!found) {
-        for (const auto& c : cands) {
-            if (parser.isRecognizedKeyword(c)) {
-                const auto& k = parser.getKeyword(c);
-                if (k.getName() == jkw.getName()) { found = &k; break; }
-            }
-        }
+    try {
+        found = &builtin[jkw.getName()];
+    } catch (const std::invalid_argument&) {
+        found = nullptr;
     }
     if (found) {
         out.key("builtin");
